@@ -18,6 +18,7 @@ import (
 	"context"
 	"fmt"
 	"regexp"
+	"slices"
 	"strings"
 	"time"
 
@@ -175,6 +176,7 @@ func (s *Service) Update(ctx context.Context, pipelineID string, cfg Config) (*I
 		return nil, err
 	}
 
+	oldCfg, oldUpdatedAt := pl.Config, pl.UpdatedAt
 	delete(s.instanceNames, pl.Config.Name) // delete the old name
 	pl.Config = cfg
 	pl.UpdatedAt = time.Now()
@@ -182,6 +184,10 @@ func (s *Service) Update(ctx context.Context, pipelineID string, cfg Config) (*I
 	s.instanceNames[cfg.Name] = true
 	err = s.store.Set(ctx, pl.ID, pl)
 	if err != nil {
+		// nothing was persisted, the instance has to stay as it was
+		delete(s.instanceNames, cfg.Name)
+		s.instanceNames[oldCfg.Name] = true
+		pl.Config, pl.UpdatedAt = oldCfg, oldUpdatedAt
 		return nil, cerrors.Errorf("failed to save pipeline with ID %q: %w", pl.ID, err)
 	}
 
@@ -208,10 +214,12 @@ func (s *Service) UpdateDLQ(ctx context.Context, pipelineID string, cfg DLQ) (*I
 		return nil, cerrors.New("DLQ window nack threshold must be lower than window size")
 	}
 
+	oldDLQ, oldUpdatedAt := pl.DLQ, pl.UpdatedAt
 	pl.DLQ = cfg
 	pl.UpdatedAt = time.Now()
 	err = s.store.Set(ctx, pl.ID, pl)
 	if err != nil {
+		pl.DLQ, pl.UpdatedAt = oldDLQ, oldUpdatedAt // nothing was persisted
 		return nil, cerrors.Errorf("failed to save pipeline with ID %q: %w", pl.ID, err)
 	}
 
@@ -224,10 +232,12 @@ func (s *Service) AddConnector(ctx context.Context, pipelineID string, connector
 	if err != nil {
 		return nil, err
 	}
+	oldIDs, oldUpdatedAt := pl.ConnectorIDs, pl.UpdatedAt
 	pl.ConnectorIDs = append(pl.ConnectorIDs, connectorID)
 	pl.UpdatedAt = time.Now()
 	err = s.store.Set(ctx, pl.ID, pl)
 	if err != nil {
+		pl.ConnectorIDs, pl.UpdatedAt = oldIDs, oldUpdatedAt // nothing was persisted
 		return nil, cerrors.Errorf("failed to save pipeline with ID %q: %w", pl.ID, err)
 	}
 
@@ -251,11 +261,14 @@ func (s *Service) RemoveConnector(ctx context.Context, pipelineID string, connec
 		return nil, cerrors.Errorf("%w (ID: %s)", ErrConnectorIDNotFound, connectorID)
 	}
 
-	pl.ConnectorIDs = pl.ConnectorIDs[:connectorIndex+copy(pl.ConnectorIDs[connectorIndex:], pl.ConnectorIDs[connectorIndex+1:])]
+	// remove the ID from a copy, so the old list can be put back if saving fails
+	oldIDs, oldUpdatedAt := pl.ConnectorIDs, pl.UpdatedAt
+	pl.ConnectorIDs = slices.Delete(slices.Clone(oldIDs), connectorIndex, connectorIndex+1)
 	pl.UpdatedAt = time.Now()
 
 	err = s.store.Set(ctx, pl.ID, pl)
 	if err != nil {
+		pl.ConnectorIDs, pl.UpdatedAt = oldIDs, oldUpdatedAt // nothing was persisted
 		return nil, cerrors.Errorf("failed to save pipeline with ID %q: %w", pl.ID, err)
 	}
 
@@ -268,10 +281,12 @@ func (s *Service) AddProcessor(ctx context.Context, pipelineID string, processor
 	if err != nil {
 		return nil, err
 	}
+	oldIDs, oldUpdatedAt := pl.ProcessorIDs, pl.UpdatedAt
 	pl.ProcessorIDs = append(pl.ProcessorIDs, processorID)
 	pl.UpdatedAt = time.Now()
 	err = s.store.Set(ctx, pl.ID, pl)
 	if err != nil {
+		pl.ProcessorIDs, pl.UpdatedAt = oldIDs, oldUpdatedAt // nothing was persisted
 		return nil, cerrors.Errorf("failed to save pipeline with ID %q: %w", pl.ID, err)
 	}
 
@@ -295,11 +310,14 @@ func (s *Service) RemoveProcessor(ctx context.Context, pipelineID string, proces
 		return nil, cerrors.Errorf("%w (ID: %s)", ErrProcessorIDNotFound, processorID)
 	}
 
-	pl.ProcessorIDs = pl.ProcessorIDs[:processorIndex+copy(pl.ProcessorIDs[processorIndex:], pl.ProcessorIDs[processorIndex+1:])]
+	// remove the ID from a copy, so the old list can be put back if saving fails
+	oldIDs, oldUpdatedAt := pl.ProcessorIDs, pl.UpdatedAt
+	pl.ProcessorIDs = slices.Delete(slices.Clone(oldIDs), processorIndex, processorIndex+1)
 	pl.UpdatedAt = time.Now()
 
 	err = s.store.Set(ctx, pl.ID, pl)
 	if err != nil {
+		pl.ProcessorIDs, pl.UpdatedAt = oldIDs, oldUpdatedAt // nothing was persisted
 		return nil, cerrors.Errorf("failed to save pipeline with ID %q: %w", pl.ID, err)
 	}
 
